@@ -1204,8 +1204,14 @@ class _FakeExecutor:
 
     def __init__(self, *a, **kw):
         self.busy_until = 0.0
+        self._owner = _FakeExecutor.world
 
     def submit(self, func, *a, **kw):
+        if self._owner is not _FakeExecutor.world:
+            # an executor object cached by the library across executions: each execution of the
+            # explorer starts from a fresh process state
+            self._owner = _FakeExecutor.world
+            self.busy_until = 0.0
         return _FakeFuture(_FakeExecutor.world, self, lambda: func(*a, **kw))
 
     def shutdown(self, *a, **kw):
